@@ -1,11 +1,11 @@
 package harness
 
 import (
-	"io"
-	"runtime"
 	"bytes"
 	"fmt"
+	"io"
 	"math"
+	"runtime"
 	"sort"
 
 	"golang.org/x/image/font"
